@@ -6,9 +6,11 @@ select from a repeat `${q}`, or_other spellings, randomize / seed, value / label
 appearance, choice_filter) from any nesting of groups and repeats, xml-/csv-external rows, pulldata()
 calls in every logic cell, `${last-saved#x}`.
 
-Every random choice derives from the `random.Random` passed in.  Cells are generated so that
-`clean_text_values` is the identity on them (no leading / trailing / doubled spaces, no smart quotes):
-whitespace normalisation belongs to C13.
+Every random choice derives from the `random.Random` passed in.  Survey cells are generated so that
+`clean_text_values(strip_whitespace=True)` is the identity on them (whitespace normalisation of the survey
+sheet belongs to C13).  Cells of the choices and external_choices sheets are data: a stream of them carries
+runs of spaces, tabs, newlines, leading / trailing blanks (all of which must arrive unchanged in the
+instances and in itemsets.csv) and, rarely, smart quotes (replaced by the converter: finding F41).
 
 Avoided on purpose (crash classes owned by C17 / findings owned by other properties): unfiltered
 `select_one_external`, `select_multiple ${q}`, xml-external inside a repeat, select-from-repeat with
@@ -30,6 +32,8 @@ R_NAMES = ["r", "rep", "kids", "r2"]
 FILES = ["f.csv", "data.xml", "g.geojson", "cities.csv", "pd.csv", "xe.xml", "a.b.csv", "F.CSV"]
 TEXT_ATOMS = ["a", "b", "Z", "é", "中", "<", ">", "&", '"', "'", ",", ";", "x y", "1", "{", "}", "=", "-", "_", "Label", "]]>"]
 CSV_ATOMS = TEXT_ATOMS + ["\n", '""', ",,", "\r", "\r\n", " ", "\t", "#"]
+WS_ATOMS = ["  ", "   ", "\t", "\n", " ", "a", "b", "x y", "1", "Z", "é", ",", "\t\t", " \n "]
+SMART = ["“", "”", "‘", "’"]
 OR_OTHER = [" or_other", " or other", " or specify other"]
 LOGIC_COLS = ["calculation", "constraint", "relevant", "required", "read_only"]
 
@@ -46,6 +50,20 @@ def text(rng, atoms=TEXT_ATOMS, lo=1, hi=4) -> str:
     return "t"
 
 
+def data_text(rng, atoms=TEXT_ATOMS, p_ws=0.0, p_smart=0.0) -> str:
+    """A data cell (choices / external_choices): optionally with whitespace kept as typed or a smart quote."""
+    r = rng.random()
+    if r < p_ws:
+        for _ in range(20):
+            s = "".join(rng.choice(WS_ATOMS) for _ in range(rng.randint(2, 5)))
+            if s.strip() and "${" not in s:
+                return s
+        return "a  b"
+    if r < p_ws + p_smart:
+        return rng.choice(SMART) + text(rng, ["a", "b", "x y", "1"]) + rng.choice(SMART + [""])
+    return text(rng, atoms)
+
+
 class Gen:
     def __init__(self, rng: random.Random, big: bool = False):
         self.rng = rng
@@ -56,6 +74,9 @@ class Gen:
         self.top_questions = []  # names of questions outside every repeat (safe ${} targets)
         self.repeat_questions = []  # (name, inside a top-level-only repeat chain) for select-from-repeat
         self.pd_files = ["pd", "fruits", "my-file", "d.a"]
+        # data-cell streams: most forms plain, some with whitespace kept as typed, few with smart quotes
+        self.p_ws = rng.choice([0.0, 0.0, 0.0, 0.3, 0.6])
+        self.p_smart = rng.choice([0.0] * 9 + [0.3])
 
     # ------------------------------------------------------------------ choices
     def make_lists(self):
@@ -86,20 +107,20 @@ class Gen:
                 row = {"list_name": ln, "name": nm}
                 k = L["kind"]
                 if k in ("plain", "media"):
-                    row["label"] = text(rng)
+                    row["label"] = data_text(rng, TEXT_ATOMS, self.p_ws, self.p_smart)
                 elif k == "sparse_label":
                     if rng.random() < 0.6:
-                        row["label"] = text(rng)
+                        row["label"] = data_text(rng, TEXT_ATOMS, self.p_ws, self.p_smart)
                 elif k == "dyn":
                     row["label"] = text(rng) + ((" ${%s}" % rng.choice(self.top_questions)) if self.top_questions and i == L["size"] - 1 else "")
                 elif k == "trans":
                     for lg in L["langs"]:
-                        row[f"label::{lg}"] = text(rng)
+                        row[f"label::{lg}"] = text(rng)  # itext content: C07 / C08
                 if k == "media" and (i == 0 or rng.random() < 0.4):
                     row[self.media_col] = text(rng, ["a", "b", "1"]) + ".png"
                 for c in L["cols"]:
                     if rng.random() < 0.65:
-                        row[c] = text(rng)
+                        row[c] = data_text(rng, TEXT_ATOMS, self.p_ws, self.p_smart)
                 rows.append(row)
             per_list[ln] = rows
         # interleave: lists are not contiguous on the sheet
@@ -222,7 +243,7 @@ class Gen:
                     p["seed"] = rng.choice(["4", "1.5", "-7", "042", self.ref() or "9", " 3"]).strip()
         elif v == "search":
             cmd = rng.choice(["select_one", "select_multiple"])
-            cands = [x for x in static_lists if x not in self.nonsearch_lists and self.lists[x]["kind"] != "sparse_label"]
+            cands = [x for x in static_lists if x not in self.nonsearch_lists]
             if not cands:
                 return None
             ln = rng.choice(cands)
@@ -363,7 +384,7 @@ class Gen:
                         if c in ("list_name", "name"):
                             continue
                         if rng.random() < 0.6:
-                            row[c] = text(rng, CSV_ATOMS, 1, 4)
+                            row[c] = data_text(rng, CSV_ATOMS, self.p_ws, self.p_smart) if rng.random() < 0.8 else text(rng, CSV_ATOMS, 1, 4)
                     # cell order in the row dict need not follow the header
                     if rng.random() < 0.3:
                         ks = list(row)
